@@ -474,7 +474,7 @@ pub fn nts_template(msg: &mut [u8; 160], layout: u8, b0: u8) -> usize {
 /// non-empty extension-field vectors: > 9 min, > 5 GB). `expect`: None = must be ignored.
 #[cfg(kani)]
 fn nts_undecryptable(layout: u8, b0: u8, class: crate::c16::Class, versions: [NtpVersion; 3], expect: Option<Kind>) {
-    stubs::symbolic_rng();
+    any_rng();
     let mut msg: [u8; 160] = kani::any();
     let len = nts_template(&mut msg, layout, b0);
     let vn = (b0 >> 3) & 7;
